@@ -129,8 +129,16 @@ def verify_function(world, qual, timeout_ms=10000):
             ob.note = (ob.note or '') + ' (retry after %.1fs undecided)' % first
             ob.seconds += first
     for ob in ex.obls:
-        res.obligations.append({'name': ob.name, 'kind': ob.kind, 'verdict': ob.verdict, 'backend': ob.backend,
-                                'seconds': round(ob.seconds, 4), 'detail': ob.detail, 'model': ob.model, 'note': ob.note})
+        d = {'name': ob.name, 'kind': ob.kind, 'verdict': ob.verdict, 'backend': ob.backend,
+             'seconds': round(ob.seconds, 4), 'detail': ob.detail, 'model': ob.model, 'note': ob.note}
+        if ob.verdict == 'refuted' and getattr(ob, 'concrete', None):
+            # replay the counter-model on the real function (same tree the obligations were generated from)
+            from . import replay
+            obs = replay.run_concrete(ob.concrete)
+            d['concrete'] = ob.concrete
+            d['observed'] = obs
+            d['replayed'] = replay.confirms(ob.name, ob.concrete, obs)
+        res.obligations.append(d)
         res.solver_seconds += ob.seconds
     res.builtins = sorted(calls.USED_BUILTINS) + ['ASSUMED CONTRACT %s: %s' % (q, w) for q, w in sorted(calls.USED_TRUSTED.items())]
     return res
@@ -220,6 +228,87 @@ def discharge(obls, timeout_ms=10000):
         solve_one(ob, timeout_ms)
 
 
+def decode_v(m, t):
+    """python value of a V-sorted term in model m: (True, value) for None/bool/int/str/bytes, (False, kind) otherwise"""
+    import re as _re
+    v = m.eval(t, model_completion=True)
+    if not z3.is_app(v):
+        return False, 'unknown'
+    n = v.decl().name()
+
+    def unesc(zs):
+        txt = zs.as_string()
+        return _re.sub(r'\\u\{([0-9a-fA-F]+)\}', lambda mm: chr(int(mm.group(1), 16)), txt)
+    if n == 'none':
+        return True, None
+    if n == 'b':
+        return True, z3.is_true(v.arg(0))
+    if n == 'i' and z3.is_int_value(v.arg(0)):
+        return True, v.arg(0).as_long()
+    if n == 's' and z3.is_string_value(v.arg(0)):
+        return True, unesc(v.arg(0))
+    if n == 'y' and z3.is_string_value(v.arg(0)):
+        return True, {'bytes': [ord(c) & 255 for c in unesc(v.arg(0))]}
+    return False, n
+
+
+def concretize(ob, m):
+    """turn a counter-model into a concrete call of the real function when parameters and receiver fields are scalars"""
+    ex = getattr(ob, 'ex', None)
+    if ex is None or ex.entry is None or ex.inline_depth:
+        return None
+    f = ex.f
+    params = list(f.params)
+    has_self = f.cls is not None and params and params[0] == 'self' and not f.is_staticmethod
+    if f.cls is not None and not has_self:
+        return None
+    args = []
+    approximated = []
+    for p in (params[1:] if has_self else params):
+        ok, v = decode_v(m, ex.entry.env[p].t)
+        if not ok:
+            ty = ex.c.params.get(p, 'any')
+            if ty == 'stream':
+                v = {'stream': True}
+            elif ty in ('any', None) or ty.startswith('opt:'):
+                v = None          # an object reference in the model: replaced by None (the replay decides whether that still reproduces)
+                approximated.append(p)
+            else:
+                return None
+        args.append(v)
+    fields, defaults = {}, {}
+    if has_self:
+        me = ex.entry.env['self']
+        ctx = ex.ctx or f.cls
+        for k in ctx.mro:
+            if not isinstance(k, ClassInfo):
+                continue
+            for name, ty in REG.fields.get(k.qual, {}).items():
+                if name.startswith('g_') or name in fields or name in defaults:
+                    continue
+                arr = ex.entry.heap.get('f:' + name)
+                if arr is None:
+                    arr = ex.harr(ex.entry, 'f:' + name)
+                term = z3.Select(arr, rv(me.t))
+                raw = m.eval(term, model_completion=False)
+                constrained = z3.is_app(raw) and raw.decl().name() in ('none', 'b', 'i', 's', 'y', 'r', 'fl')
+                ok, v = decode_v(m, term) if constrained else (False, None)
+                if ok:
+                    fields[name] = v
+                else:
+                    defaults[name] = ty.replace('opt:', '')    # not fixed by the model (or an object): a neutral default of the declared kind
+    clause = ob.detail if '/post/' in ob.name and isinstance(ob.detail, str) and ob.detail != 'callable' else None
+    rec = {'module': f.module.name, 'cls': f.cls.name if f.cls else None, 'func': f.name, 'params': params[1:] if has_self else params,
+           'args': args, 'fields': fields, 'defaults': defaults, 'clause': clause, 'approximated': approximated}
+    if has_self:
+        ctx = ex.ctx or f.cls
+        rec['ctx_module'], rec['ctx_cls'] = ctx.module.name, ctx.name
+    if clause:
+        from .symex import rewrite_implies
+        rec['clause_py'] = rewrite_implies(clause)
+    return rec
+
+
 def model_to_py(m, limit=40):
     out = {}
     try:
@@ -275,6 +364,10 @@ def solve_one(ob, timeout_ms):
             ob.verdict = 'proved'
         elif r == z3.sat:
             ob.verdict, ob.model = 'refuted', model_to_py(s.model())
+            try:
+                ob.concrete = concretize(ob, s.model())
+            except Exception:
+                ob.concrete = None
         else:
             ob.verdict, ob.note = 'undecided', s.reason_unknown()
             r2 = cli_check(s, '/usr/bin/z3', timeout_ms // 1000 + 1)
@@ -395,6 +488,10 @@ def _solve_conjunct(ob, flat_pc, qf, c, sk, timeout_ms):
     if r == z3.unsat:
         return 'proved', 'z3', 'default', None
     if r == z3.sat:
+        try:
+            ob.concrete = concretize(ob, s.model())
+        except Exception:
+            ob.concrete = None
         return 'refuted', 'z3', '', model_to_py(s.model())
     note = s.reason_unknown()
     r, s = attempt(flat_pc, third, {'smt.mbqi': False, 'smt.random_seed': 7})
